@@ -128,7 +128,8 @@ def case_stage(ctx, which):
 # ---------------------------------------------------------------------------------------------------------------------------------
 # the clause loops of Formatter.unordered_query / ordered_query (Model/QueryFmt.v, Props/C03q.v)
 THMS_Q = ["C03_clause_written_with_its_value", "C03_clause_sequence", "C03_clauses_written_once", "C04_key_order_irrelevant", "C03_nodupb_sound"]
-HEADER_Q = ("From Coq Require Import List ZArith String Bool.\nFrom MoSql Require Import Base.Json Model.QueryFmt.\nImport ListNotations.\n"
+THMS_B = ["C03_regular_branch_iff", "C03_setop_tail_written", "C03_setop_tail_value", "C03_setop_tail_complete"]
+HEADER_Q = ("From Coq Require Import List ZArith String Bool.\nFrom MoSql Require Import Base.Json Model.QueryFmt Model.QueryBranch.\nImport ListNotations.\n"
             "Open Scope string_scope. Open Scope list_scope.\n"
             "Fixpoint strs_eqb (a b : list string) : bool := match a, b with [], [] => true | x :: a', y :: b' => String.eqb x y && strs_eqb a' b' | _, _ => false end.\n")
 QUERIES = [
@@ -137,7 +138,8 @@ QUERIES = [
     "with x as (select 1) select distinct a, b from t group by a having c fetch first 0 rows only",
     "select a from (select b from u limit 0) t order by a", "select distinct on (a) b from t where 0 order by a limit 5",
     "select * from t pivot (sum(x) for y in (1, 2)) where z", "select a, b from t where c = 0 group by a, b having count(*) > 0 order by a, b desc limit 10 offset 20",
-    "select 0", "select a from t where false", "select a from t group by 0", "with q as (select 0) select a from q limit 0",
+    "select a from t union select b from u limit 0", "select a from t union all select b from u order by 1 offset 0 rows fetch first 0 rows only",
+    "select a from t intersect select b from u order by a desc limit 3 offset 0", "select 0", "select a from t where false", "select a from t group by 0", "with q as (select 0) select a from q limit 0",
 ]
 
 
@@ -145,8 +147,17 @@ def query_stage(ctx):
     import mo_sql_parsing.formatting as F
     M = impl.M
     ctx.prove("Props.C03q", THMS_Q)
+    ctx.prove("Props.C03b", THMS_B)
     uo, oo = list(F.unordered_clauses), list(F.ordered_clauses)
+    agg = sorted(F.agg_kwargs)
     rec, top = [], [None]
+    took_regular = [False]
+    orig_uq = F.Formatter.unordered_query
+
+    def uq(self, json, prec):
+        if json is top[0]:
+            took_regular[0] = True
+        return orig_uq(self, json, prec)
     saved = {}
 
     def wrap(name):
@@ -177,12 +188,24 @@ def query_stage(ctx):
                 objs.append((sql, {k: t[k] for k in ks}))
     for c in uo + oo:
         wrap(c)
+    F.Formatter.unordered_query = uq
     try:
         for sql, t in objs:
-            if not (set(t.keys()) & (set(uo) - {"from"})):
-                continue                 # set-operation expression with a tail / aggregate form: other branches of ordered_query, not modelled
-            top[0] = t; del rec[:]
+            top[0] = t; del rec[:]; took_regular[0] = False
             st, s = impl.outcome(M.format, t)
+            d0 = clist([cpair(cstr(k), "(JInt 0)") for k in t.keys()])
+            if st == "ok":
+                # which branch of ordered_query the object takes (Model/QueryBranch.v)
+                checks.append("Bool.eqb (is_regular (branch_of %s %s %s)) %s" % (clist([cstr(x) for x in uo]), clist([cstr(x) for x in agg]), d0, cbool(took_regular[0])))
+                meta.append(dict(sql=sql, keys=list(t.keys()), unordered_query_called=took_regular[0], what="branch of ordered_query"))
+            if not (set(t.keys()) & (set(uo) - {"from"})):
+                if st == "ok" and "from" in t:
+                    # set operation with a tail: the operand is dispatched directly, then the ordered clauses that are present
+                    checks.append("strs_eqb (map fst (emit %s %s)) %s" % (clist([cstr(x) for x in oo]), d0, clist([cstr(n) for n, _ in rec])))
+                    meta.append(dict(sql=sql, keys=list(t.keys()), renderers_called=[n for n, _ in rec], formatted=s, what="tail clauses written after a set operation"))
+                    if [n for n, ok in rec if not ok]:
+                        ctx.violation("input", dict(sql=sql, tree=short(t, 400), formatted=s, observed="a tail clause renderer returned empty text", requires="format writes every clause of the tree"))
+                continue
             ctx.count(1, sql + repr(list(t.keys())))
             if st != "ok":
                 continue
@@ -196,13 +219,14 @@ def query_stage(ctx):
     finally:
         for c, o in saved.items():
             setattr(F.Formatter, c, o)
+        F.Formatter.unordered_query = orig_uq
     bad, log = l0.run_checks(ctx, "queryfmt", HEADER_Q, checks, shard=400)
     if bad is None:
         ctx.obligation("clause-loop correspondence evaluated", False, log[-2000:])
         ctx.violation("obligation", dict(what="clause-loop correspondence could not be evaluated by coqc", log=log[-2000:]), no_input=True)
         return
     ctx.traces += len(checks)
-    ctx.obligation("correspondence: Model/QueryFmt.v query_clauses on the live clause lists = the renderers Formatter calls, on %d query objects (incl. zero counts and permuted keys)" % (len(checks) - 1), not bad)
+    ctx.obligation("correspondence: Model/QueryFmt.v query_clauses / Model/QueryBranch.v branch_of on the live clause lists = the renderers Formatter calls and the branch ordered_query takes, %d checks on query objects (incl. zero counts, permuted keys, set operations with a tail)" % (len(checks) - 1), not bad)
     for i in bad[:5]:
         ctx.violation("input", dict(meta[i], broken="correspondence Model/QueryFmt.v vs Formatter.unordered_query / ordered_query"), no_input=True)
 
